@@ -76,13 +76,16 @@ def sweep_programs(ctx):
         add({"fam": "split", "kind": "salsa20", "len": n, "ivlen": 4 if n % 2 else 8, "blk": "rand", "points": pts})
         if q or n % 4 == 0:
             add({"fam": "split", "kind": "arc4", "len": n, "ivlen": 0, "keylen": 16, "points": pts[:4]})
-    # counter carry into the second counter word: needs the test-only constructor (HOOK-crypto); the driver
-    # skips these programs while the hook is not compiled in
-    for ivlen in (4, 8):
-        add({"fam": "split", "kind": "salsa20", "len": 300, "ivlen": ivlen, "blk": BLKS[ivlen // 4],
-             "ctr": [[65535, 65534], [0, 0]], "points": [0, 64, 127, 128, 129, 300]})
-        add({"fam": "split", "kind": "salsa20", "len": 200, "ivlen": ivlen, "blk": BLKS[4],
-             "ctr": [[65535, 65535], [65535, 65535]], "points": [0, 64, 65]})
+    # counter carry into the second counter word (and wrap of the whole 64-bit counter): the block counter is
+    # preset through the test-only constructor Salsa20Cipher::new_with_counter (verif-hooks); the driver skips
+    # these programs when the hook is not compiled in.  ctr = [low word, high word], each [hi16, lo16]
+    ctrs = ([[65535, 65534], [0, 0]], [[65535, 65535], [0, 0]], [[65535, 65535], [0, 7]], [[65535, 65534], [65535, 65535]],
+            [[65535, 65535], [65535, 65535]], [[4660, 22136], [39612, 57072]])
+    for i, ctr in enumerate(ctrs):
+        for ivlen in (4, 8):
+            n = 300 if i % 2 == 0 else 200
+            add({"fam": "split", "kind": "salsa20", "len": n, "ivlen": ivlen, "blk": BLKS[(i + ivlen // 4) % 6], "ctr": ctr,
+                 "points": [0, 1, 63, 64, 65, 127, 128, 129, 191, 192, 193, n] if q else list(range(0, n + 1, 1 if i < 2 else 7))})
     # SIMD helpers: every buffer length 0..=200 under every CPU-feature subset of the host
     for n in range(0, 201):
         allp = n <= (64 if q else 200)
